@@ -43,10 +43,25 @@ def _nested(x, T):
     return out
 
 
+TOUCH = False      # when set, every intermediate formula is printed / Hill-ordered / counted before it is used
+
+
+def _touch(f):
+    if TOUCH:
+        str(f), repr(f), f.hill, f.atoms, f.mass
+    return f
+
+
 def build(e, T=None):
+    return _touch(_build(e, T))
+
+
+def _build(e, T=None):
     import periodictable as P
     from periodictable import formulas
     k = e[0]
+    if k == "named":
+        return P.formula(build(e[2], T), name=e[1])
     if k == "str":
         return P.formula(e[1], table=_tab(T) if T else None)
     if k == "atom":
@@ -146,8 +161,10 @@ def observe_print(arg):
     """arg: {"items":[{"id", "expr", "T"}]} -> events for Trace_Print."""
     import periodictable as P
     out = []
+    global TOUCH
     for it in arg["items"]:
         ev = {"id": it["id"]}
+        TOUCH = bool(it.get("touch"))
         try:
             f = build(it["expr"], it.get("T"))
         except Exception as e:
@@ -214,8 +231,10 @@ def observe_hill(arg):
     """items: {"id", "variants": [expr...], "hillstr_atoms": [[z,a,q,count]...]} """
     import periodictable as P
     out = []
+    global TOUCH
     for it in arg["items"]:
         ev = {"id": it["id"]}
+        TOUCH = bool(it.get("touch"))
         try:
             fs = [build(e, it.get("T")) for e in it["variants"]]
             hs = [f.hill for f in fs]
